@@ -122,7 +122,9 @@ class Run:
                 try:
                     k = op[2]
                     cells = self.cells[op[1]]
-                    if len(k) == 0:
+                    if len(k) == 0 and len(op) > 4 and op[4] == "attr":
+                        setattr(cells.parent, cells.name, op[3])
+                    elif len(k) == 0:
                         cells.value = op[3]
                     else:
                         cells[tuple(k) if len(k) > 1 else k[0]] = op[3]
